@@ -19,7 +19,7 @@ func init() {
 		ID:    "C19",
 		Level: "model_checking",
 		Rule: "per-registry BFS to closure (messengers: domains {0,1,256} x 2 addresses; token pairs: domains {0,1} x tokens differing only in first / only in last byte x 2 local denoms; burn limits: denoms uusdc/UUSDC/uatom x 2 amounts; " +
-			"attesters: 4 strings incl. two spellings of one key; used nonces: 4 pairs by real receives) and a combined BFS (depth 3 quick / 4 thorough, sharded) over a mixed menu incl. unauthorised and duplicate/missing cases; " +
+			"attesters: 4 strings incl. two spellings of one key; used nonces: 4 pairs by real receives) and a combined BFS (depth 3 quick / 5 thorough, sharded) over a mixed menu incl. unauthorised and duplicate/missing cases; " +
 			"after every transition: every single-item query for every key of the universe, every list query for page sizes 1..n+1 in key and offset mode with count_total, and all scalar queries vs the reference maps; " +
 			"distinct_nontrivial = distinct (registry content, transaction, outcome) triples",
 		Assumptions: []string{"the burn-limit single query is asked under the stored (lower-cased) key; count_total is judged in offset mode only"},
@@ -43,7 +43,7 @@ func c19Jobs(tier string) []Job {
 	}
 	depth := 3
 	if tier == "thorough" {
-		depth = 4
+		depth = 5
 	}
 	for sh := 0; sh < c19Shards; sh++ {
 		sh := sh
